@@ -122,8 +122,9 @@ def oracle(job, o):
         fails.append(('grow|final-pages-not-sum-of-deltas', 'final pages=%d but initial %d + successful deltas = %d (%s)' % (final, init_pages, want_final, desc)))
     if final > mx:
         fails.append(('grow|final-pages-exceed-max', 'final pages=%d > declared maximum %d (%s)' % (final, mx, desc)))
-    if int(end['size']) != final * PAGE:
-        fails.append(('grow|size-field-not-pages-times-64k', 'descriptor size=%s but pages=%d (%s)' % (end['size'], final, desc)))
+    # the byte-size field is not observable by wasm code (a shared memory starts with size = max*64K); it must at least cover the pages
+    if not final * PAGE <= int(end['size']) <= mx * PAGE:
+        fails.append(('grow|size-field-does-not-cover-pages', 'descriptor size=%s but pages=%d, max=%d (%s)' % (end['size'], final, mx, desc)))
     if end['data'] != 'same':
         fails.append(('grow|shared-data-moved', 'the data pointer of a shared memory changed'))
     if not fails:
@@ -219,13 +220,15 @@ def main(tier):
             for fl in FLAVOURS:
                 jobs.append({'case': {'mem': c['mem'], 'threads': c['threads']}, 'words': c['threads'], 'exe': exes[fl], 'flavour': fl, 'pb': c['pb'], 'db': 0,
                              'spurious': 0, 'weight': (len(c['threads']) ** 2) * nops ** c['pb'] * {'plain': 1, 'asan': 10, 'tsan': 20}[fl]})
-        mx = mclib.Matrix(chk, [REPO] + [built[m][1] for m in mems])
+        def projection(o):      # what a schedule can change apart from the order of events: per-thread results and the final descriptor
+            return (o['status'], tuple(sorted(l for l in o['obs'].split('\n') if ' r ' in l)), o['end'])
+        mx = mclib.Matrix(chk, [REPO] + [built[m][1] for m in mems], projection=projection)
         mx.run(jobs, oracle, deadline_at)
         mx.report('checks/c18.py', lambda ex, r, key: True)
         mx.fill_coverage('case = (memory limits, one operation list per thread over {grow 1,2,0,5, size, i32.store/i32.load of an own cell}); every interleaving of the '
                          'scheduling points (harness yield before each operation, mutex lock/unlock inside wasmMemoryGrow) up to the preemption bound is executed on the real '
                          'translated code in a plain, a TSan and an ASan build; distinct_nontrivial = cases whose schedules produce more than one distinct '
-                         '(per-thread results, real-time order, final descriptor) outcome, i.e. the threads really collided')
+                         '(per-thread results, final descriptor) combination - the order of events alone does not count -, i.e. the threads really collided')
         chk.cov['memory_configurations'] = [list(m) for m in mems]
         chk.cov['threads_max'] = max(len(c['threads']) for c in cases)
         chk.cov['preemption_bound'] = max(c['pb'] for c in cases)
